@@ -347,6 +347,27 @@ def handleHail (toks : List String) : String :=
     | _, _, _ => "!bad-op"
   | _ => "!bad-op"
 
+/-- `rim create <key,key|-> <src id, - = empty> <normal 0|1> <normalTaken 0|1>`: cell 0 is the caller's mode, cells 1.. the
+stored records; the generator comes up with `G`.
+→ `out=<ok|none>|send=<id of the record when announced>|final=<its id when the call returns>|src=<the caller's id afterwards>|keys=<k.k>` -/
+def handleCreate (toks : List String) : String :=
+  match toks with
+  | [keys, sid, nrm, tk] =>
+    match ScVerif.Line.parseBool? nrm, ScVerif.Line.parseBool? tk with
+    | some nrm, some tk =>
+      let ks : List String := if keys = "-" then [] else keys.splitOn ","
+      let sid := if sid = "-" then "" else sid
+      let h : MH Nat := { cells := fun x => if x = 0 then ⟨sid, nrm, 0⟩ else ⟨ks.getD (x - 1) "", false, 0⟩, next := ks.length + 1 }
+      let store : Store := (List.range ks.length).map fun i => (ks.getD i "", i + 1)
+      let r := createMode h store 0 "G" tk
+      let showId (s : String) : String := if s = "" then "-" else s
+      let ids := match r.record with
+        | some rc => s!"out=ok|send={showId (r.atSend.cells rc).id}|final={showId (r.heap.cells rc).id}"
+        | none => "out=none|send=-|final=-"
+      s!"{ids}|src={showId (r.heap.cells 0).id}|keys={sortedKeys r.store}"
+    | _, _ => "!bad-op"
+  | _ => "!bad-op"
+
 /-- `s:e` or `n` (the item has no booked period) -/
 def parsePeriod? (s : String) : Option (Option Period) :=
   if s = "n" then some none
